@@ -23,7 +23,7 @@ REGISTRY = {
     "level": "proof",
     "technique": "Coq totality proof of the parser model (no Panic, fuel adequacy) + differential correspondence under catch_unwind",
     "text": "C09_parse_total: for EVERY string ParsedValue::new (model) returns Ok/Err, never panics (every recorded slice offset is a "
-            "character boundary: C09_scan_boundaries) and needs at most length+2 nested calls. The model is tied to /repo by running the "
+            "character boundary: C09_scan_boundaries) and needs at most length+2 nested calls; Props/C09b.v: foreign-key resolution terminates within its fuel for every project (C09_resolve_terminates, bound D + N*(D+1)); Props/C09c.v: DefaultedLocales::default_of / compute terminate for every inherits table, rho shapes included (C09_default_of_terminates, C09_compute_terminates). The model is tied to /repo by running the "
             "real parser under catch_unwind on a malformed stream (grammar-aware mutations, token soups, foreign-key argument variants, "
             "multibyte characters next to delimiters) and comparing result classes. PIPELINE (not proved, correspondence + fault "
             "enumeration only): whole malformed projects (bad configs, empty/mistyped files, NaN/inf/overflowing range bounds in every "
